@@ -1,4 +1,4 @@
-import CTV.Lemmas.RacesChrome
+import CTV.Lemmas.RacesApple
 /-! Helper lemmas for C17 about the policy groups and the compatibility filter, and the running example `run2`. -/
 set_option linter.unusedSimpArgs false
 set_option linter.unusedVariables false
@@ -174,5 +174,24 @@ theorem chrome_shape_of_policy {m : Int} {ls : List LogInfo} {r : Run} (hc : pol
       exact ⟨h1, h2, h3⟩
     · cases hc
 
+
+theorem apple_groups_raw (m : Int) (ls : List LogInfo) :
+    rawGroups .apple m ls = [⟨baseName, dedup (ls.map (·.id)), Gen.Policy.appleIncCount m, true⟩] := by
+  simp [rawGroups, rawGroups.go, subgroups, Gen.Policy.appleSubgroups, incCount]
+
+/-- the single group the Apple policy builds has the Apple shape; its minimum does not exceed its size when
+`LogsByGroup` succeeds -/
+theorem apple_shape_of_policy {m : Int} {ls : List LogInfo} {r : Run} (hc : policyCfg .apple m ls = some r.cfg) :
+    ∃ B, AppleShape r B ∧ B.min ≤ B.logs.length := by
+  have hcfg := policyCfg_some hc
+  rw [apple_groups_raw] at hcfg
+  refine ⟨_, ⟨hcfg, rfl, nodup_dedup _⟩, ?_⟩
+  unfold policyCfg at hc
+  dsimp only at hc
+  split at hc
+  · rename_i hall
+    rw [apple_groups_raw, List.all_eq_true] at hall
+    exact setMin_le (hall _ List.mem_cons_self)
+  · cases hc
 
 end CTV.Model.Races
